@@ -8,7 +8,7 @@
    This file holds only the property theorems, each closed by [exact] + Print Assumptions. *)
 From Coq Require Import List ZArith Bool.
 From MirV Require Import Base.W64 Mir.Opcode Mir.Syntax Mir.Sem C01.InsnSem C04.Simplify C04.SimplifyProofs.
-From MirV Require Import gen.C04Shortcuts.
+From MirV Require Import gen.C04Shortcuts C04.LoweringSem.
 Import ListNotations.
 Local Open Scope Z_scope.
 
@@ -36,6 +36,29 @@ Theorem lowering_insns_meaning :
   val_op MUL = Some (K64, K64) /\ val_op ADD = Some (K64, K64) /\ val_op MOV = None.
 Proof. exact cexec_matches_isem. Qed.
 Print Assumptions lowering_insns_meaning.
+
+(* ... and executing them with the reference semantics ([Sem.exec_insn], any instruction semantics in
+   which add/mul are the modular operations) updates the destination register exactly as [cexec]
+   does, keeps memory, pushes no event and stays Next: the chain theorem above is a theorem about Sem *)
+Theorem lowering_add_in_sem : forall isem prog regions,
+  (forall a b, sem_val isem ADD [a; b] = Some (u64 (a + b))) ->
+  forall s f d a b va vb, reg_is f a va -> reg_is f b vb ->
+  exec_insn isem prog regions s f (to_insn (CAdd d a b)) = Next (after s f d (u64 (u64 (va + vb)))).
+Proof. exact exec_add. Qed.
+Print Assumptions lowering_add_in_sem.
+
+Theorem lowering_mul_in_sem : forall isem prog regions,
+  (forall a b, sem_val isem MUL [a; b] = Some (u64 (a * b))) ->
+  forall s f d a b va vb, reg_is f a va -> reg_is f b vb ->
+  exec_insn isem prog regions s f (to_insn (CMul d a b)) = Next (after s f d (u64 (u64 (va * vb)))).
+Proof. exact exec_mul. Qed.
+Print Assumptions lowering_mul_in_sem.
+
+Theorem lowering_mov_in_sem : forall isem prog regions s f d z,
+  exec_insn isem prog regions s f (to_insn (CMovImm d z))
+  = Next (upd_top s (next_pc (set_reg f d (V (u64 z) Def))) (st_mem s) None).
+Proof. exact exec_movimm. Qed.
+Print Assumptions lowering_mov_in_sem.
 
 (* Alloca consolidation: the blocks carved out of the merged alloca follow each other inside
    [0, total): any two are disjoint (any group size, any sizes incl. <= 0). *)
